@@ -466,12 +466,12 @@ impl Sim for MemSim {
     fn plan(_prop: &str, tier: Tier) -> Vec<Phase> {
         match tier {
             Tier::Quick => vec![
-                Phase { name: "direct", count: 30_000, exhaustive: false },
-                Phase { name: "stripe", count: 20_000, exhaustive: false },
+                Phase { name: "direct", count: 60_000, exhaustive: false },
+                Phase { name: "stripe", count: 40_000, exhaustive: false },
                 Phase { name: "stripe-every-length", count: 2 * 1100, exhaustive: true },
-                Phase { name: "scan", count: 12_000, exhaustive: false },
-                Phase { name: "gibbs", count: 3_000, exhaustive: false },
-                Phase { name: "dense", count: 10_000, exhaustive: false },
+                Phase { name: "scan", count: 24_000, exhaustive: false },
+                Phase { name: "gibbs", count: 6_000, exhaustive: false },
+                Phase { name: "dense", count: 20_000, exhaustive: false },
             ],
             Tier::Thorough => vec![
                 Phase { name: "direct", count: 600_000, exhaustive: false },
